@@ -277,6 +277,11 @@ class StmtMixin:
     def ex_Assign(self, st):
         v = self.ev(st.value)
         for t in st.targets:
+            lt = getattr(self.frames[-1], "local_types", None)
+            if lt and isinstance(t, ast.Name) and t.id in lt and isinstance(v, SV) and v.term is None:
+                # an un-annotated empty container whose element type the contract declares (local_types)
+                self.assign_target(t, v, st.lineno, lt[t.id])
+                continue
             self.assign_target(t, v, st.lineno)
 
     def ex_AnnAssign(self, st):
